@@ -11,7 +11,7 @@ From SV Require Import Rot.C17Base SM.C17Name SM.C17Rounds SM.C17Subst SM.C17Sit
                        Gen.C17Formulas_gen
                        Rot.C17GeomProofs SM.C17NameProofs SM.C17RoundsProofs SM.C17SubstProofs SM.C17SitesProofs
                        SM.C17FrameProofs SM.C17GlobalProofs SM.C17CacheProofs SM.C17ComposeProofs
-                       SM.C17Whole SM.C17WholeProofs SM.C17PropertyProofs.
+                       SM.C17Whole SM.C17WholeProofs SM.C17PropertyProofs SM.C17Kinds SM.C17KindsProofs SM.C17ManifestProofs SM.C17RoundsDyn SM.C17RoundsDynProofs.
 Import ListNotations.
 (* String is imported for the census names; [length] keeps meaning the length of a list *)
 Local Notation length := List.length (only parsing).
@@ -338,6 +338,8 @@ Proof. exact order_independent. Qed.
     What remains assumed is [respects], about the meaning of the individual statements (universally quantified [m]):
     a statement writes through references it holds or builds a copy as the census says, and what it computes depends on
     the template only through the template's value.
+    (Round 5, below: c17_property_by_statement_kinds replaces [respects] by a generated per-statement kind table that the
+    check validates on every run, plus the per-kind contract [follows]; [respects] is then derived.)
     Conclusion: every result (how control left collapse_one, what was added to the map) of ANY history of collapses of
     one template in one process equals what that call alone gives on the untouched template, in a new process (any
     process state [g0]), at the identity placement, moved to its own placement. *)
@@ -393,6 +395,79 @@ Proof. exact g_arith_covers_sites. Qed.
 Theorem c17_property_transform_is_the_specification : forall D p (r : added D),
   transform D g_arith p r = transform D spec_arith p r.
 Proof. exact transform_g_is_spec. Qed.
+
+(** *** Round 5: [respects] narrowed to a GENERATED per-statement table (SM/C17Kinds.v).
+    translate/c17_formulas.py classifies every numbered site of the skeleton of collapse_one by where the names bound to
+    template objects occur in what the site evaluates: [KdLocal] (none), [KdRead] (only read by value), [KdCopy cls]
+    (`.copy()` of a template object of class cls), [KdOther] (anything else) - [g_collapse_statement_kinds].  The new
+    generated-object hypothesis is [kinds_ok]: every site of the skeleton has an entry, none is [KdOther], every copied
+    class is in [g_collapse_copied_classes] (obligation `statement_kinds_cover_collapse_one`).  What is still assumed
+    about the meaning [m] of the statements is [follows], kind by kind: a local / reading statement changes the heap
+    only by in-place stores and allocations through the references held (it builds no copy), a copying statement is
+    [disciplined] for its one class; a local statement computes from the values in hand alone, a reading / copying
+    statement from those and the VALUE of the template.  [follows] says nothing about an [KdOther] statement. *)
+Definition collapse_one_statement_kinds_ok : bool :=
+  andb collapse_one_skeleton_present
+       (forallb (fun f => if str_eqb (fst f) [99;111;108;108;97;112;115;101;95;111;110;101]%N
+                          then kinds_ok g_collapse_statement_kinds g_collapse_copied_classes (snd f) else true)
+                g_process_state_functions).
+
+Theorem c17_statement_kinds_give_respects : forall all copied (X G : Type) (a : loc) tbl body,
+  kinds_ok tbl copied body = true ->
+  forall m : sem (pstate X) G, follows all X G a tbl m -> respects all copied X G a m.
+Proof. exact kinds_respects. Qed.
+
+Theorem c17_property_by_statement_kinds : forall (all : list (string * census)),
+  copied_classes_fresh all g_collapse_copied_classes = true ->
+  process_state_only_gates_logging = true ->
+  forall name body, In (name, body) g_process_state_functions ->
+  kinds_ok g_collapse_statement_kinds g_collapse_copied_classes body = true ->
+  forall (X G A D : Type) (a : loc) (m : sem (pstate X) G), follows all X G a g_collapse_statement_kinds m ->
+  forall (enter : A -> X) (content : X -> list (item D)) cs t g g0, wf_T a t ->
+    c_history T G placement A (added D) (collapse X G m A D g_arith body enter content) cs t g =
+    map (as_if_first T G placement A (added D) (collapse X G m A D g_arith body enter content)
+           ident_placement (transform D g_arith) t g0) cs.
+Proof.
+  exact (fun all fr ga name body pr ok =>
+           kinds_each_collapse_as_if_first all g_collapse_copied_classes g_process_state_functions fr ga name body pr
+             g_collapse_statement_kinds ok).
+Qed.
+
+Theorem c17_property_by_statement_kinds_any_order : forall (all : list (string * census)),
+  copied_classes_fresh all g_collapse_copied_classes = true ->
+  process_state_only_gates_logging = true ->
+  forall name body, In (name, body) g_process_state_functions ->
+  kinds_ok g_collapse_statement_kinds g_collapse_copied_classes body = true ->
+  forall (X G A D : Type) (a : loc) (m : sem (pstate X) G), follows all X G a g_collapse_statement_kinds m ->
+  forall (enter : A -> X) (content : X -> list (item D)) cs cs' t g, wf_T a t -> Permutation.Permutation cs cs' ->
+    Permutation.Permutation (c_history T G placement A (added D) (collapse X G m A D g_arith body enter content) cs t g)
+                            (c_history T G placement A (added D) (collapse X G m A D g_arith body enter content) cs' t g).
+Proof.
+  exact (fun all fr ga name body pr ok =>
+           kinds_order_independent all g_collapse_copied_classes g_process_state_functions fr ga name body pr
+             g_collapse_statement_kinds ok).
+Qed.
+
+Theorem c17_property_by_statement_kinds_template_intact : forall (all : list (string * census)),
+  copied_classes_fresh all g_collapse_copied_classes = true ->
+  forall body, kinds_ok g_collapse_statement_kinds g_collapse_copied_classes body = true ->
+  forall (X G A D : Type) (a : loc) (m : sem (pstate X) G), follows all X G a g_collapse_statement_kinds m ->
+  forall (enter : A -> X) (content : X -> list (item D)) cs t g, wf_T a t ->
+    let t' := final_T X G m A D g_arith body enter content cs t g in
+    wf_T a t' /\ forall n, unfold n (fst t') (VRef a) = unfold n (fst t) (VRef a).
+Proof.
+  exact (fun all fr body ok => kinds_template_intact all g_collapse_copied_classes fr body g_collapse_statement_kinds ok).
+Qed.
+
+(** *** Round 5: VMM manifests.  `Manifest` is an `Instance` constructed with `Vec()`, `Matrix()` and `FixupStyle.NONE`
+    (obligation `manifest_identity_placement_names_unaltered`: the arguments of the `Instance.__init__` call in
+    `Manifest.__init__`, no override of fixup_name / fixup_key): for every name table passing the named checks no name is
+    altered, and the generated placement arithmetic at (0, I) alters no item of the content. *)
+Theorem c17_manifest_names_unaltered : forall c, cfg_ok c = true -> forall inst name, fixup_name c SNone inst name = Some name.
+Proof. exact manifest_names_unaltered. Qed.
+
+Theorem c17_manifest_content_unaltered : forall D (r : added D), transform D g_arith ident_placement r = r.
+Proof. exact manifest_content_unaltered. Qed.
 
 (** The derivations behind c17_property, for any arithmetic / census / skeleton: a statement that respects the census
     keeps the template's value and the separation (C09's census theorem + frame theorem, one statement at a time) ... *)
@@ -500,4 +575,25 @@ Theorem c17_collapse_cycle_check_rounds_le_files : forall children perm, (forall
   forall limit roots, incl roots univ ->
   l_rounds (loop2 children perm limit (C17Rounds.start roots)) <= S (length univ).
 Proof. exact cycle_check_rounds_le_files. Qed.
+(** *** Round 5: the ancestry check with file names that come from $variables (SM/C17RoundsDyn.v).  A pending instance is a
+    state (file + what the fixup variables hand down), [fl] gives its file, [kids s] the nested instances that collapsing
+    [s] adds, flagged literal / through a $variable; parents are recorded along literal links and reset at the others
+    ([loop3], what collapse_one / collapse_all do today: obligations `nested_instance_parents_extended_on_literal_file_names`,
+    `ancestry_check_before_each_collapse`).  If a literal link belongs to the file ([lit_by_file]: from whatever state a file
+    is collapsed, its literal nested instances are there, with the same file names) then for every state graph, limit, start
+    and iteration order the loop with the check decides like the loop without it on the state graph, with the same rounds
+    and collapses when that one finishes, and never more work: the check never fires on an inclusion that would have ended. *)
+Theorem c17_collapse_cycle_check_exact_with_variable_file_names : forall fl kids, lit_by_file fl kids ->
+  forall perm, (forall l, Permutation.Permutation (perm l) l) -> forall limit roots,
+  l_outcome (loop3 fl kids perm limit (start3 roots)) = l_outcome (loop (children3 kids) limit roots) /\
+  (l_outcome (loop (children3 kids) limit roots) = Done -> loop3 fl kids perm limit (start3 roots) = loop (children3 kids) limit roots) /\
+  l_work (loop3 fl kids perm limit (start3 roots)) <= l_work (loop (children3 kids) limit roots) /\
+  l_rounds (loop3 fl kids perm limit (start3 roots)) <= l_rounds (loop (children3 kids) limit roots).
+Proof. exact dyn_cycle_check_exact. Qed.
+
+(** recording a $variable link like a literal one (the `'$' not in` test dropped) makes a terminating self-inclusion raise *)
+Theorem c17_variable_link_recorded_as_literal_refuted :
+  loop3 countdown_fl countdown_as_literal (fun l => l) 100 (start3 [3]) = (Raise, 2, 1) /\
+  loop (children3 countdown_as_literal) 100 [3] = (Done, 4, 4) /\ ~ lit_by_file countdown_fl countdown_as_literal.
+Proof. exact dyn_chain_recorded_as_literal_refuted. Qed.
 (* END round 4 - cycle repair ====================================================================================== *)
